@@ -29,6 +29,17 @@ def _impl():
     return get_bit_writer, get_bit_reader, BitReadError, PyBufrKitError
 
 
+def _snapshot(W):
+    """(length, bits) of a writer without disturbing it"""
+    n = W.get_pos()
+    pad = (-n) % 8
+    import copy
+    W2 = copy.deepcopy(W)
+    if pad:
+        W2.write_bin('0' * pad)
+    return n, W2.to_bytes()
+
+
 def _finish_bytes(W):
     pad = (-W.get_pos()) % 8
     if pad:
@@ -146,6 +157,36 @@ def lattice_case(case):
         bad('overflow-accepted', 'write_uint(%d, %d) was accepted' % (val, w))
         return 'overflow:accepted', viol
 
+    if kind == 'ioverflow':
+        # sign-magnitude field of w bits: magnitude has w-1 bits, so |val| >= 2^(w-1) does not fit and must be refused;
+        # after the refusal nothing of it may be readable as a value (a refused write leaves at most the sign bit behind)
+        W = get_bit_writer()
+        if off:
+            W.write_uint(0, off)
+        try:
+            W.write_int(val, w)
+        except Exception as e:
+            return 'ioverflow:refused:' + type(e).__name__, viol
+        bad('int-overflow-accepted', 'write_int(%d, %d) was accepted (the magnitude needs more than %d bits)' % (val, w, w - 1))
+        return 'ioverflow:accepted', viol
+
+    if kind == 'setoverflow':
+        W = get_bit_writer()
+        W.write_uint(0xC3, 8)
+        if off:
+            W.write_uint(0, off)
+        W.write_uint(0, w)
+        W.write_uint(0xA5, 8)
+        before = _snapshot(W)
+        try:
+            W.set_uint(val, w, 8 + off)
+        except Exception as e:
+            if _snapshot(W) != before:
+                bad('set-overflow-partial', 'refused set_uint(%d, %d) changed the stream' % (val, w))
+            return 'setoverflow:refused:' + type(e).__name__, viol
+        bad('set-overflow-accepted', 'set_uint(%d, %d, %d) was accepted' % (val, w, 8 + off))
+        return 'setoverflow:accepted', viol
+
     if kind == 'pastend':
         # buffer of exactly off + w - 1 bits worth of whole octets -> read of w at off must fail
         nbytes = (off + w - 1) // 8
@@ -177,6 +218,11 @@ def lattice_cases():
                     yield ['int', w, v, off]
             for v in (1 << w, -1, (1 << w) + 1):
                 yield ['overflow', w, v, off]
+                yield ['setoverflow', w, v, off]
+            if w >= 2:
+                h = 1 << (w - 1)
+                for v in sorted({h, -h, h + 1, -(h + 1), (1 << w) - 1, -((1 << w) - 1), 1 << w, -(1 << w)}):
+                    yield ['ioverflow', w, v, off]
             for which in (0, 1, 2):
                 yield ['pastend', w, which, off]
 
